@@ -26,6 +26,9 @@ pub enum Profile {
     Leap,
     /// paired Rust/C observations
     Abi,
+    /// one outage as long as the wrap-around points of common time representations
+    /// (2^32 us, 2^16 s, 2^31 ms, 2^32 ms): timers must not come back to life (C13)
+    Epoch,
 }
 
 impl Profile {
@@ -41,6 +44,7 @@ impl Profile {
             "formula" => Profile::Formula,
             "leap" => Profile::Leap,
             "abi" => Profile::Abi,
+            "epoch" => Profile::Epoch,
             _ => return None,
         })
     }
@@ -56,6 +60,7 @@ impl Profile {
             Profile::Formula => "formula",
             Profile::Leap => "leap",
             Profile::Abi => "abi",
+            Profile::Epoch => "epoch",
         }
     }
 }
@@ -94,6 +99,7 @@ pub struct BCfg {
     pub delay_ppm: u32,
     pub clock_lag_ppm: u32,
     pub clock_lag_max_ns: i64,
+    pub clock_read_cost_ns: i64,
     pub clock_fail_ppm: u32,
     /// 0 none, 1 configured and chronyd's reference matches, 2 configured but other reference,
     /// 3 matching with file faults (missing / garbage)
@@ -121,7 +127,7 @@ impl BCfg {
             "profile": self.profile, "world_seed": self.world_seed, "drift_ppb": self.drift_ppb, "tick_ns": self.tick_ns,
             "start_mono_ns": self.start_mono_ns, "t0_ns": self.t0_ns, "horizon_ns": self.horizon_ns, "weak": self.weak, "stale_ppm": self.stale_ppm,
             "switch_ppm": self.switch_ppm, "step_cost_ns": self.step_cost_ns, "delay_ppm": self.delay_ppm, "clock_lag_ppm": self.clock_lag_ppm,
-            "clock_lag_max_ns": self.clock_lag_max_ns, "clock_fail_ppm": self.clock_fail_ppm, "phc": self.phc, "script": self.script, "tight_pct": self.tight_pct,
+            "clock_lag_max_ns": self.clock_lag_max_ns, "clock_read_cost_ns": self.clock_read_cost_ns, "clock_fail_ppm": self.clock_fail_ppm, "phc": self.phc, "script": self.script, "tight_pct": self.tight_pct,
             "daemon": self.daemon.iter().map(|d| json!({"kill_at": d.kill_at, "panic_at": d.panic_at, "io_err": d.io_err.map(|(a, b)| vec![a, b]), "restart_delay_ns": d.restart_delay_ns})).collect::<Vec<_>>(),
             "init_file": crate::world_a::corrupt_to_json(&self.init_file),
             "clients": self.clients.iter().map(|c| json!({"kind": c.kind, "calls": c.calls, "threshold_pct": c.threshold_pct, "start_ns": c.start_ns})).collect::<Vec<_>>(),
@@ -147,6 +153,7 @@ impl BCfg {
             delay_ppm: u(&v["delay_ppm"]) as u32,
             clock_lag_ppm: u(&v["clock_lag_ppm"]) as u32,
             clock_lag_max_ns: i(&v["clock_lag_max_ns"]),
+            clock_read_cost_ns: v["clock_read_cost_ns"].as_i64().unwrap_or(0),
             clock_fail_ppm: u(&v["clock_fail_ppm"]) as u32,
             phc: u(&v["phc"]) as u8,
             script: u(&v["script"]) as u8,
@@ -177,7 +184,7 @@ const SEC: i64 = 1_000_000_000;
 
 pub fn gen_config(profile: Profile, run_seed: u64, index: u64) -> BCfg {
     let mut r = Rng::new(mix(run_seed, 0xB0B));
-    let drift = *r.pick(&[1_000u32, 10_000, 50_000, 50_000, 100_000, 500_000]);
+    let drift = *r.pick(&[1_000u32, 10_000, 50_000, 50_000, 100_000, 500_000, 0, 1, 123_457, 999_999_999]);
     let tick = *r.pick(&[1i64, 1_000_000, 4_000_000, 4_000_000, 10_000_000]);
     let mut c = BCfg {
         profile: profile.name().to_string(),
@@ -198,6 +205,7 @@ pub fn gen_config(profile: Profile, run_seed: u64, index: u64) -> BCfg {
         delay_ppm: *r.pick(&[0u32, 300, 1_500, 5_000]),
         clock_lag_ppm: if r.chance(30) { 50_000 } else { 0 },
         clock_lag_max_ns: 50_000,
+        clock_read_cost_ns: 0,
         clock_fail_ppm: if r.chance(15) { 3_000 } else { 0 },
         phc: *r.pick(&[0u8, 0, 1, 2, 3]),
         script: 1,
@@ -225,8 +233,8 @@ pub fn gen_config(profile: Profile, run_seed: u64, index: u64) -> BCfg {
     match profile {
         Profile::Pipeline => {
             c.script = *r.pick(&[0u8, 1, 1, 1]);
-            if r.chance(10) {
-                c.horizon_ns = r.range(300, 1500) * SEC;
+            if r.chance(12) {
+                c.horizon_ns = r.range(300, 2600) * SEC;
                 c.max_steps = 1_500_000;
             }
         }
@@ -301,6 +309,8 @@ pub fn gen_config(profile: Profile, run_seed: u64, index: u64) -> BCfg {
             c.clients.clear();
             c.synthetic_cases = r.range(20, 60) as u32;
             c.step_cost_ns = 0;
+            // in some runs the clocks advance on every read (so that two reads of one call differ)
+            c.clock_read_cost_ns = *r.pick(&[0i64, 0, 0, 1, 300, 700, 2_500]);
             c.delay_ppm = 0;
             c.clock_lag_ppm = 0;
             c.clock_fail_ppm = 0;
@@ -338,6 +348,25 @@ pub fn gen_config(profile: Profile, run_seed: u64, index: u64) -> BCfg {
             c.clients.truncate(1);
             c.horizon_ns = r.range(40, 70) * SEC;
             c.delay_ppm = *r.pick(&[0u32, 0, 1_500]);
+        }
+        Profile::Epoch => {
+            c.script = 7;
+            c.weak = false;
+            c.stale_ppm = 0;
+            c.delay_ppm = 0;
+            c.clock_fail_ppm = 0;
+            c.clock_lag_ppm = 0;
+            c.phc = 0;
+            c.step_cost_ns = 100;
+            c.clients.truncate(1);
+            c.clients[0].kind = 2;
+            c.clients[0].calls = 6;
+            c.clients[0].threshold_pct = 0;
+            // outage lengths in seconds, just past each wrap-around point
+            let len_s = [4_296i64, 65_540, 2_147_485, 4_294_969][(index % 4) as usize];
+            c.horizon_ns = (len_s + 40) * SEC;
+            c.leap_base = len_s as u32;
+            c.max_steps = 60_000_000;
         }
         Profile::Abi => {
             c.script = *r.pick(&[0u8, 1, 2]);
